@@ -71,7 +71,10 @@ def fit_vine(vine_type, truncated, df, poison, pseed=0, state=7, seed=None, pref
             if o[0] == 'ok':
                 outcome(v.sample, 1)
                 outcome(v.get_likelihood, np.full((1, prefit[0].shape[1]), 0.4))
-        out = outcome(v.fit, df, truncated=truncated)
+        if truncated is None:
+            out = outcome(v.fit, df)                   # the documented default truncation
+        else:
+            out = outcome(v.fit, df, truncated=truncated)
     return v, out
 
 
